@@ -132,6 +132,30 @@ pub fn run(tier: Tier, replay: Option<Value>) -> ! {
         for (k, body) in ["printf 'a\\n\\n\\n'", "printf '\\n\\na'", "printf 'a b\\n c\\n'", "vprod 70000", "vprod 70000; vexit 4", "vprod 70000 u", "vprod 1048576 u", "vprod 300000 u | vcat", "vprod 8 u", "printf 'é\\n\\n'", "printf ''", "printf '\\n'", "vexit 5", "echo a; echo b >&2"].iter().enumerate() {
             cases.push(Case { script: format!("x=$({body})\necho \"st=$? len=${{#x}}\"\nprintf '%s' \"$x\" | vcons\n"), tags: vec!["cmdsub-only".into(), format!("body:{k}")] });
         }
+        // the substituted command itself runs in the shell (builtin, loop, function, nested substitution)
+        // and writes more than a pipe holds
+        for n in [65535usize, 65537, 1 << 20] {
+            for (k, body) in [
+                "printf '%s' \"$P\"",
+                "echo \"$P\"",
+                "bf",
+                "for w in 1 2; do printf '%s' \"$P\"; done",
+                "{ printf '%s' \"$P\"; vexit 4; }",
+                "printf '%s' \"$(printf '%s' \"$P\")\"",
+                "printf '%s' \"$P\" | vcat",
+                "vcat <<<\"$P\"",
+                "i=0; while [ $i -lt 40 ]; do printf '%s\\n' \"${P:0:2000}\"; i=$((i+1)); done",
+                "{ printf '%s' \"$P\" >&2; } 2>&1",
+            ]
+            .iter()
+            .enumerate()
+            {
+                cases.push(Case {
+                    script: format!("P=$(vprod {n}; echo x); P=${{P%x}}\nbf() {{ printf '%s' \"$P\"; }}\nx=$({body})\necho \"st=$? len=${{#x}}\"\nprintf '%s' \"$x\" | vcons\n"),
+                    tags: vec!["cmdsub-only".into(), "shell-writer".into(), format!("body:{k}"), format!("payload:{n}")],
+                });
+            }
+        }
         // NUL bytes are dropped and trailing newlines trimmed, in that order of meaning: every output of <= 3
         // symbols over {a, newline, NUL}
         for b in crate::engine::enumerate::strings(&["a", "\\n", "\\0"], 3) {
